@@ -291,30 +291,73 @@ def _c19_names(fn):
     return params, bound - params
 
 
-def _c19_text(node, params, bound):
-    """source text of an expression with every variable replaced by what it is: `<param>` (supplied by the caller
-    of the function) or `<local>` (bound inside it); globals, attributes and keywords stay.  Renaming a local or
-    a parameter therefore does not change the table."""
-    import copy
+def _c19_helper_returns(fn):
+    """the returned expressions of a helper whose body is nothing but (a docstring and) `return <expr>` statements,
+    possibly under `if`s; None when the function does anything else"""
+    rets = []
 
-    class T(ast.NodeTransformer):
-        def visit_Name(self, n):
-            if n.id in params:
-                return ast.copy_location(ast.Name(id="<param>", ctx=n.ctx), n)
-            if n.id in bound:
-                return ast.copy_location(ast.Name(id="<local>", ctx=n.ctx), n)
-            return n
-    return ast.unparse(T().visit(copy.deepcopy(node)))
+    def ok(body):
+        for i, st in enumerate(body):
+            if (isinstance(st, ast.Expr) and isinstance(st.value, ast.Constant) and isinstance(st.value.value, str)):
+                continue
+            if isinstance(st, ast.Return) and st.value is not None:
+                rets.append(st.value)
+            elif isinstance(st, ast.If):
+                if not (ok(st.body) and ok(st.orelse)):
+                    return False
+            else:
+                return False
+        return True
+    return rets if ok(fn.body) and rets else None
 
 
-def _c19_scan(fn):
+def _c19_norm(node, cls, helpers, depth=0):
+    """canonical text of a context-manager / opener / callee expression: callee names, and for every positional
+    argument only what it is — `<param>` (supplied by the caller of the function), `<local>` (bound inside it), a
+    nested call, or `_`.  Keyword arguments, literal arguments (file modes) and the tests of conditional expressions
+    are dropped; the alternatives of a conditional expression are sorted.  A call of a module-private helper whose
+    body only returns such expressions is replaced by what the helper returns (one level).  Renaming variables,
+    adding `encoding=…`, or moving `open(...) if … else nullcontext(...)` into a helper does not change the text."""
+    def norm(n):
+        return _c19_norm(n, cls, helpers, depth)
+    if isinstance(node, ast.IfExp):
+        alts = sorted({norm(node.body), norm(node.orelse)})
+        return alts[0] if len(alts) == 1 else "either(" + ", ".join(alts) + ")"
+    if isinstance(node, ast.Name):
+        return cls(node.id)
+    if isinstance(node, ast.Attribute):
+        return norm(node.value) + "." + node.attr
+    if isinstance(node, ast.Call):
+        f = node.func
+        if isinstance(f, ast.Name) and depth == 0 and f.id in helpers:
+            h = helpers[f.id]
+            rets = _c19_helper_returns(h)
+            if rets is not None:
+                names = [a.arg for a in h.args.posonlyargs + h.args.args]
+                amap = {nm: norm(arg) for nm, arg in zip(names, node.args)}
+                amap.update({kw.arg: norm(kw.value) for kw in node.keywords if kw.arg})
+                alts = sorted({_c19_norm(r, lambda nm: amap.get(nm, nm), helpers, 1) for r in rets})
+                return alts[0] if len(alts) == 1 else "either(" + ", ".join(alts) + ")"
+        args = [norm(a) for a in node.args if not isinstance(a, (ast.Constant, ast.Starred))]
+        return norm(f) + "(" + ", ".join(args) + ")"
+    return "_"
+
+
+def _c19_scan(fn, helpers=None):
     """(points, bare_opens, for_calls, close_calls) of one function body; nested defs/classes/lambdas skipped.
-    points: (what, [context expressions of the enclosing `with` items, outermost first])"""
+    points: (what, [normalised context expressions of the enclosing `with` items, outermost first]).
+    Only yields, yield-froms, opener calls, close calls, the callee names of write / save calls and the enclosing
+    with-items enter the table; other statements and the arguments of calls do not.  A with-item that is rooted
+    at a local variable and is neither an opener nor `closing(...)` (e.g. `buffer.getbuffer()`) is left out."""
     points, bare, fors, closes = [], [], [], []
     params, bound = _c19_names(fn)
+    helpers = helpers or {}
+
+    def cls(name):
+        return "<param>" if name in params else "<local>" if name in bound else name
 
     def txt(node):
-        return _c19_text(node, params, bound)
+        return _c19_norm(node, cls, helpers)
 
     def expr(node, ctx, in_item):
         # walk an expression tree in source order
@@ -330,7 +373,7 @@ def _c19_scan(fn):
             if (name in _C19_OPENERS or ast.unparse(node.func) in _C19_OPENERS_DOTTED) and not in_item:
                 bare.append(txt(node))
             if name == "close" and isinstance(node.func, ast.Attribute):
-                closes.append(txt(node))
+                closes.append(txt(node.func) + "()")
             if name in _C19_WRITE_CALLS:
                 points.append(["call " + txt(node.func), list(ctx)])
         for ch in ast.iter_child_nodes(node):
@@ -344,7 +387,9 @@ def _c19_scan(fn):
                 inner = list(ctx)
                 for it in st.items:
                     expr(it.context_expr, inner, True)
-                    inner = inner + [txt(it.context_expr)]
+                    t = txt(it.context_expr)
+                    if not t.startswith("<local>"):
+                        inner = inner + [t]
                 stmts(st.body, inner)
             elif isinstance(st, (ast.For, ast.AsyncFor)):
                 if isinstance(st.iter, ast.Call):
@@ -385,7 +430,9 @@ def item_with_frames(repo):
         if cls is not None:
             scope = next(n for n in tree.body if isinstance(n, ast.ClassDef) and n.name == cls)
         fn = next(n for n in scope.body if isinstance(n, (ast.FunctionDef, ast.AsyncFunctionDef)) and n.name == name)
-        points, bare, fors, closes = _c19_scan(fn)
+        helpers = {n.name: n for n in tree.body
+                   if isinstance(n, ast.FunctionDef) and n.name.startswith("_") and n is not fn}
+        points, bare, fors, closes = _c19_scan(fn, helpers)
         out.append([(cls + "." if cls else "") + name, points, bare, fors, closes])
     return out
 
